@@ -2,6 +2,7 @@ import TssVerif.Core.Wire
 import TssVerif.Core.OpsCrypto
 import TssVerif.Core.Sign
 import TssVerif.Core.EngineTables
+import TssVerif.Core.Engine2
 import TssVerif.Core.Ckd
 import TssVerif.Core.Primes
 import TssVerif.Core.Blame
@@ -104,6 +105,13 @@ def run (op : String) (args : List String) : Option String :=
         | some (idx, blamed) => "error culprits=" ++ (if blamed then toString idx else "_")
         | none => "pass")
     | _, _ => none
+  | "engine2_trace", [proto, role, nOld, nNew, self, evs] =>
+    match Engine2.findProto proto, pDec nOld, pDec nNew, pDec self with
+    | some p, some nOld, some nNew, some self =>
+      some (match Engine2.runTrace p (role == "new") nOld nNew self (evs.splitOn ";") with
+        | some l => ";".intercalate l
+        | none => "bad-trace")
+    | _, _, _, _ => none
   | "ed25519_verify", [pub, msg, sig] =>
     match pBytes pub, pBytes msg, pBytes sig with
     | some pub, some msg, some sig => some (rBool (Ed.verify pub msg sig))
